@@ -461,3 +461,10 @@ def run_normals(case, out):
         i = int(np.argmax(bad))
         kind = "y==0" if N[i, 1] == 0 and N[i, 0] != 0 else ("+-z" if N[i, 0] == 0 and N[i, 1] == 0 else "general")
         out.fail(f"n2e:z_axis_not_normal:{kind}", f"normal {N[i].tolist()} -> angles {ang[i].tolist()} -> z axis {z[i].tolist()}")
+
+
+# rejected calls that run before every case (vlib/faults.py): nothing they leave behind - module state, library options,
+# stray files - may make the valid calls of the case violate the statement
+from vlib import faults as _faults  # noqa: E402
+
+fault_calls = _faults.for_property(ID)
